@@ -86,6 +86,22 @@ pub fn judge_msg(ctx: &mut Ctx, b: &[u8], o: Option<SOpts>) {
         let run = exec::decode_msg(b, o, rk);
         unchecked += account(ctx, "decode", &run, b, o);
         ctx.rep.bucket("readers.compared");
+        if rk == Rk::Wiping {
+            // a `T` that is a guard on the reader's shared storage (a `Ref` into a ring buffer)
+            // must be released before the reader is used again, or that reader panics
+            if let Some(l) = &run.log {
+                let n = l.borrow().calls_with_live_lease;
+                ctx.rep.bucket("lease_reader.decodes");
+                if n > 0 {
+                    ctx.rep.bucket("lease_reader.calls_with_live_lease");
+                    ctx.violate(
+                        "C02:reader-called-while-lease-alive",
+                        format!("{} reader calls were made while a T handed out by an earlier bytes() call was still alive: a reader whose T is a guard on shared storage (RefCell-backed ring buffer) panics there, SliceReader does not", n),
+                        w_input(b, o),
+                    );
+                }
+            }
+        }
         let agree = same_out(&base.out, &run.out) && (!base.out.is_ok() || base.remaining == run.remaining);
         if !agree {
             let sig = format!("C02:reader-divergence:decode:{}-vs-{}", base.out.class(), run.out.class());
